@@ -332,3 +332,7 @@ func rpcErrCode(err error) (int, bool) {
 	}
 	return 0, false
 }
+
+func sortStrings(s []string) { sort.Strings(s) }
+
+func removeAll(dir string) { os.RemoveAll(dir) }
